@@ -185,6 +185,10 @@ func (a *Authenticator) receivePAP(data []byte) error {
 	identifier := data[1]
 	length := binary.BigEndian.Uint16(data[2:4])
 
+	// The length field counts the 4-byte header: anything shorter is malformed
+	if length < 4 {
+		return fmt.Errorf("PAP length below header size")
+	}
 	if int(length) > len(data) {
 		return fmt.Errorf("PAP length exceeds packet")
 	}
@@ -306,6 +310,10 @@ func (a *Authenticator) receiveCHAP(data []byte) error {
 	identifier := data[1]
 	length := binary.BigEndian.Uint16(data[2:4])
 
+	// The length field counts the 4-byte header: anything shorter is malformed
+	if length < 4 {
+		return fmt.Errorf("CHAP length below header size")
+	}
 	if int(length) > len(data) {
 		return fmt.Errorf("CHAP length exceeds packet")
 	}
